@@ -91,8 +91,8 @@ func runC17McrewTimers(c *sim.Ctx, t *testing.T) {
 	stallW := c.Intn(3, "stallw")
 
 	var (
-		lg      *sim.Log
-		ts      *Timers
+		lg *sim.Log
+		ts *Timers
 	)
 	leak := sim.Bubble(c, t, func(s *sim.Sched) {
 		s.Horizon = 3 * time.Hour
@@ -298,7 +298,6 @@ func tmPending(evs []sim.Ev, handlers map[string]tmHandler) []string {
 	sort.Strings(out)
 	return out
 }
-
 
 func min1(a, b int) int {
 	if a < b {
